@@ -64,9 +64,12 @@ impl Migrator {
 
         let newlines_in_text = text.matches('\n').count() as u32;
         self.line += newlines_in_text;
-        let len = text.len() - text.rfind('\n').map(|x| x + 1).unwrap_or(0);
+        // Token columns count characters, so the tracked column must too.
+        let len = text[text.rfind('\n').map(|x| x + 1).unwrap_or(0)..]
+            .chars()
+            .count();
         if newlines_in_text > 0 {
-            self.column = 1;
+            self.column = 1 + len as u32;
         } else {
             self.column += len as u32;
         }
